@@ -9,12 +9,12 @@ PROPERTIES = ["C01"]
 MANIFEST = {
     "C01": {
         "technique": "Lean 4 proof (invariant + refinement of a model of Map/MultiMap with stored height/slope fields, early-exit flags, threaded prev/next list and free list to a sorted association list, by induction over reachable states; lookup cost <= 2*height and the Fibonacci height bound) + differential correspondence model vs real Map.hpp/MultiMap.hpp with a comparison-counting key type",
-        "text": "Theorems (lean/Nstd/Avl/Props.lean) over ALL operation histories of the Lean model, including hinted inserts at every position, removals by key/iterator, removeFront/Back, clear, copy assignment and bulk insert between Maps: every reachable tree is an AVL-balanced search tree with correct stored height/slope, the prev/next list threads its in-order sequence (inv_reach, iter_reach); every op takes a step of the sorted-(multi)map specification on contents, acceptance and returned value (refines_rel, refines_run_rel; MultiMap hinted insert relationally via Spec.HintPos); MultiMap plain inserts are stable, count is exact; find needs <= 2*floor(1.4405*log2(n+2)) comparisons (find_cost_log), every other op at most 3 more (op_cost_log).  The model is tied to the current Map.hpp/MultiMap.hpp on every run: identical op lines are executed on both and compared on size, full iteration, returned iterator, key comparisons of every op and, for every key of the domain, the find result and its comparison count (this pins the tree shape through public observables); an independent Python sorted (multi)map and the direct integer evaluation of the comparison bound are evaluated on the implementation's output.",
-        "note": "Trusted: Lean kernel + the three standard axioms; the hand translation of Map.hpp/MultiMap.hpp into the model (validated by the correspondence run, not proved); pointers are modelled as in-order positions / item ids (an iterator handed to insert/remove is the position it has in the iteration); keys are Int in the checked model; PropsK.lean proves that the same model over any lawful strict total order (ModelK.lean, a key-type-generic copy whose Int instance is proved equal to the checked model) runs like the Int model on an order-preservingly relabelled history and transfers the cost/height/sortedness theorems; allocation never fails.  Item identities and the LIFO free list are compared with the real code (white-box dump: block number*4+index) in the thorough tier only.  The repaired MultiMap::find/count (fixes/avl/01,02) is what the model mirrors: on a tree without these patches the check reports the D1 violations.  No theorem is partial; open generalisations are listed in the OPEN block of Props.lean.",
+        "text": "Theorems (lean/Nstd/Avl/Props.lean, PropsK.lean, PropsIds.lean) over ALL operation histories of the Lean model, including hinted inserts at every position, removals by key/iterator, removeFront/Back, clear, copy construction and copy assignment (Map and MultiMap) and bulk insert between Maps: every reachable tree is an AVL-balanced search tree with correct stored height/slope, the prev/next list threads its in-order sequence (inv_reach, iter_reach); every op takes a step of the sorted-(multi)map specification on contents, acceptance and returned value (refines_rel, refines_run_rel; MultiMap hinted insert relationally via Spec.HintPos); copies hold exactly the source's entries, a MultiMap copy keeps equal keys in order (copy_spec, copy_ctor_spec); MultiMap plain inserts are stable, count is exact; find needs <= 2*floor(1.4405*log2(n+2)) comparisons (find_cost_log), every other op at most 3 more (op_cost_log); items keep their identity unless an op removes exactly them (ids_stable_step).  PropsK/PropsIds restate cost, height, order, refinement and identity for every strictly totally ordered key type (transfer to the Int model by an order embedding of the keys of the history).  The model is tied to the current Map.hpp/MultiMap.hpp on every run: identical op lines are executed on both (two Maps and two MultiMaps) and compared on size, full iteration, returned iterator, key comparisons of every op and, for every key of the domain, the find result and its comparison count (this pins the tree shape through public observables); an independent Python sorted (multi)map and the direct integer evaluation of the comparison bound are evaluated on the implementation's output.",
+        "note": "Trusted: Lean kernel + the three standard axioms; the hand translation of Map.hpp/MultiMap.hpp into the model (validated by the correspondence run, not proved); pointers are modelled as in-order positions / item ids (an iterator handed to insert/remove is the position it has in the iteration); the checked model has Int keys, the key-generic copy ModelK.lean is proved equal to it at K = Int (G.int_instance); the items-per-block constant of the node pool is translated from the current headers on every run (Generated/AvlConst.lean); allocation never fails; valid iterators; self-assignment is C04's business.  Item identities and the LIFO free list are compared with the real code (white-box dump: block number*items per block+index) in the thorough tier only.  Modelled and compared, not subject of a theorem: which free id an insert reuses.  The repaired MultiMap::find/count (fixes/avl/01,02) is what the model mirrors.",
         "design_ref": "DESIGN.md 3/C01",
     }
 }
-PROPS = ["Nstd.Avl.Props", "Nstd.Avl.PropsK"]
+PROPS = ["Nstd.Avl.Props", "Nstd.Avl.PropsK", "Nstd.Avl.PropsIds"]
 LEAN_TARGETS = PROPS + ["drv_avl"]
 DRIVER = "drv_avl"
 
@@ -545,8 +545,8 @@ def check(ctx):
         "self-assignment and self bulk insert are outside this property's generators (C04); copies are made between two different containers of the same kind",
     ]
     ctx.cov["open_statements"] = [
-        "arbitrary key types: transfer theorem + headline statements (find_cost_log, height_log, sortedness) proved in PropsK.lean; the refinement to the sorted-list specification is stated for Int keys and carries over through G.transfer / G.transfer_out, it is not restated over K",
-        "item identities / free-list order: invariant proved (ids distinct, disjoint from the free list); exact ids compared with the real code only in the thorough tier (white-box dump)",
+        "which free item id an insert reuses is modelled and compared (thorough tier), not subject of a theorem",
+        "the key-generic refinement G.refines_rel speaks about the contents relabelled by the order embedding of the keys involved; a specification typed over K is not written",
     ]
     proof_ok = C.proof_stage(ctx, PROPS, [DRIVER], gen=gen, leanchecker=(ctx.tier == "thorough"))
     harness = C.build_harness(ctx, "avl", SOURCES, extra_flags=ipb_flags())
